@@ -138,10 +138,66 @@ def _scenarios():
     return S
 
 
+KPTS_CONFIGS = {
+    "gamma (default)": lambda k: None,
+    "kmesh = [2, 1, 1] Monkhorst-Pack": lambda k: (setattr(k, "kmesh", [2, 1, 1]), setattr(k, "gamma_centered", False)),
+    "kmesh = 1": lambda k: setattr(k, "kmesh", 1),
+    "path = 'R', Nk = 1": lambda k: (setattr(k, "path", "R"), setattr(k, "Nk", 1)),
+    "path = 'GX', Nk = 4": lambda k: (setattr(k, "path", "GX"), setattr(k, "Nk", 4)),
+    "kshift = [0.1, 0, 0.2], kmesh = [1, 2, 1]": lambda k: (setattr(k, "kmesh", [1, 2, 1]), setattr(k, "kshift", [0.1, 0.0, 0.2])),
+}
+SETTER_VALUES = {
+    # member -> (constructor defaults, [(new value, description)])
+    "a": (dict(a=6.0, ecut=2), [(9.0, "a = 9"), ([[6.0, 0.5, 0.0], [0.0, 7.0, 0.0], [0.3, 0.0, 8.0]], "a = triclinic")]),
+    "ecut": (dict(a=10.0, ecut=10), [(11, "ecut = 11 (same FFT sampling s = 30 as ecut = 10)"), (4, "ecut = 4")]),
+    "s": (dict(a=6.0, ecut=2), [(12, "s = 12"), ([9, 10, 12], "s = [9, 10, 12]")]),
+    "pos": (dict(a=6.0, ecut=2), [([[1.0, 0.5, 0.2]], "pos = [[1, 0.5, 0.2]]")]),
+}
+
+
+def generic_setter_history(member):
+    """BOUNDED enumeration of histories for an Atoms setter: k-point configuration x value x (build() | SCF(atoms)) after an earlier build();
+    the result must equal a freshly constructed object with the same final inputs."""
+    from eminus import SCF
+
+    base, values = SETTER_VALUES[member]
+    n = 0
+    for kname, kcfg in KPTS_CONFIGS.items():
+        for val, vname in values:
+            for fin in ("build()", "SCF(atoms)"):
+                a = _mk(**base)
+                kcfg(a.kpts)
+                a.build()
+                setattr(a, member, val)
+                f = _mk(**dict(base, **({member: val} if member != "s" else {})))
+                if member == "s":
+                    f.s = val
+                kcfg(f.kpts)
+                if fin == "build()":
+                    a.build()
+                    f.build()
+                else:
+                    a = SCF(a, verbose="critical").atoms
+                    f = SCF(f, verbose="critical").atoms
+                n += 1
+                bad = _diff(_summary(a), _summary(f))
+                if bad:
+                    return True, dict(history=f"Atoms(He, {base}); kpts: {kname}; build(); {vname}; {fin}   vs   a fresh object with the same final inputs",
+                                      fields_that_differ_from_fresh_object=bad, histories_tried=n)
+    return False, dict(note=f"{n} histories (k-point configurations x values x build / SCF construction) agree with fresh objects")
+
+
 def replay_history(wit):
     key = (wit["cls"], wit["member"]) + ((True,) if wit.get("persist") else ())
     S = _scenarios()
     sc = S.get(key) or S.get(key[:2])
+    if wit["cls"] == "Atoms" and wit["member"].startswith("set:") and wit["member"][4:] in SETTER_VALUES:
+        try:
+            bad, info = generic_setter_history(wit["member"][4:])
+        except Exception as e:  # noqa: BLE001
+            bad, info = True, dict(raised=f"{type(e).__name__}: {e}")
+        if bad or sc is None:
+            return bad, info
     if sc is None:
         return None, dict(note="no concrete history template for this member: obligation failure only")
     try:
